@@ -368,6 +368,20 @@ func strip(v ssa.Value) ssa.Value {
 // callee that could write through it (non-receiver argument, or an Unmarshal-like method), return
 // the stored value.
 func singleStore(a *ssa.Alloc) ssa.Value {
+	// a spilled parameter keeps its identity even when its address is handed to a callee
+	{
+		var pv ssa.Value
+		k := 0
+		for _, r := range *a.Referrers() {
+			if st, ok := r.(*ssa.Store); ok && st.Addr == ssa.Value(a) {
+				k++
+				pv = st.Val
+			}
+		}
+		if _, isParam := pv.(*ssa.Parameter); isParam && k == 1 {
+			return pv
+		}
+	}
 	var val ssa.Value
 	n := 0
 	for _, r := range *a.Referrers() {
@@ -609,6 +623,14 @@ func sameVal(a, b ssa.Value) bool {
 	}
 	if strip(a) == strip(b) {
 		return true
+	}
+	// two loads of the same local cell
+	if ua, ok := a.(*ssa.UnOp); ok && ua.Op == token.MUL {
+		if ub, ok := b.(*ssa.UnOp); ok && ub.Op == token.MUL && ua.X == ub.X {
+			if _, isAlloc := ua.X.(*ssa.Alloc); isAlloc {
+				return true
+			}
+		}
 	}
 	return vkey(a) == vkey(b)
 }
@@ -1036,7 +1058,15 @@ func valueIsField(name string) func(v ssa.Value) bool {
 	}
 }
 
-func describe(v ssa.Value) string {
+func describe(v ssa.Value) string { return describeD(v, 0) }
+
+func describeD(v ssa.Value, d int) string {
+	if v == nil {
+		return "<nil>"
+	}
+	if d > 4 {
+		return "…"
+	}
 	v = strip(v)
 	switch x := v.(type) {
 	case *ssa.Call:
@@ -1052,12 +1082,12 @@ func describe(v ssa.Value) string {
 	case *ssa.Phi:
 		var s []string
 		for _, r := range roots(x) {
-			s = append(s, describe(r))
+			s = append(s, describeD(r, d+1))
 		}
 		sort.Strings(s)
 		return "phi{" + strings.Join(s, ", ") + "}"
 	case *ssa.BinOp:
-		return "(" + describe(x.X) + " " + x.Op.String() + " " + describe(x.Y) + ")"
+		return "(" + describeD(x.X, d+1) + " " + x.Op.String() + " " + describeD(x.Y, d+1) + ")"
 	}
 	if _, n, ok := fieldLoadOf(v); ok {
 		return "." + n
